@@ -2,7 +2,7 @@
 import ast
 import re
 
-from sa import tables, templ, pyflow, cbounds
+from sa import pattern, tables, templ, pyflow, cbounds
 from sa.cbounds import Lin
 from sa.loader import AnalysisError
 
@@ -462,7 +462,7 @@ def rule_r3(repo, run):
     src = _norm(sm.seg(f2))
     for k, fld in (("len", "c_var_len"), ("len_trim", "c_var_trim"), ("size", "c_var_size"),
                    ("context", "c_var_context"), ("capsule", "c_var_capsule")):
-        run.check(R, "statements.assign_buf_variable_names[%s]" % k, 'fmt.%s=attrs["%s"]' % (fld, k) in src,
+        run.check(R, "statements.assign_buf_variable_names[%s]" % k, pattern.has(f2, "fmt.%s = attrs['%s']" % (fld, k)),
                   "format field %s must be taken from attrs[%r]" % (fld, k), sm.loc(f2))
 
 
@@ -517,7 +517,7 @@ def rule_r5(repo, run):
         f = [fn for fn in m.functions().values() if any(n is node for n in ast.walk(fn))][0]
         tests = " and ".join(m.seg(t) for t, p in pyflow.dominating_tests(node, stop=f) if p)
         t = _norm(tests)
-        need = ["options.F_CFIisFalse", 'intent=="in"', "is_ptr==1", 'arg_typemap.name=="char"']
+        need = ["options.F_CFIisFalse", "intent=='in'", "is_ptr==1", "arg_typemap.name=='char'"]
         missing = [x for x in need if x not in t]
         run.check(R, "generate.VerifyAttrs.check_arg_attrs:ftrim-guard", not missing,
                   "the Fortran-side trim applies to intent(in) single-indirection char without F_CFI only; "
@@ -527,8 +527,9 @@ def rule_r5(repo, run):
     ok = False
     if sites:
         body = "\n".join(wf.seg(s) for s in sites[0].body)
-        ok = '"trim({})//C_NULL_CHAR"' in body and '"C_NULL_CHAR"' in body and "need_wrapper = True" in body and \
-            "character(len=*), intent(IN)" in body
+        strs = " ".join(pattern.strings(sites[0].body))
+        ok = "trim({})//C_NULL_CHAR" in strs and "C_NULL_CHAR" in pattern.strings(sites[0].body) and \
+            pattern.has(sites[0].body, "need_wrapper = True") and "character(len=*), intent(IN)" in strs
     run.check(R, "wrapf.Wrapf.wrap_function_impl:ftrim", ok,
               "the Fortran wrapper must pass trim(arg)//C_NULL_CHAR, import C_NULL_CHAR and force a wrapper",
               wf.loc(sites[0]) if sites else wf.loc(impl))
